@@ -67,7 +67,7 @@ impl<R: RealNumberInternalTrait> Library<R> {
     /// library/mod.rs Library::new(name, definitions): the library holds exactly these bindings
     #[verifier::external_body]
     pub fn new(library_name: LibraryName, definitions: DefMap<R>) -> (r: Self)
-        ensures lib_name(r) == library_name, lib_defs(r) == defs_view(definitions) { unimplemented!() }
+        ensures lib_name(r) == library_name, lib_defs(r) == defs_view(${DEFS}) { unimplemented!() }
 }
 /// rule X3s: `v.extend(items.iter())` (references to the items appended, in order)
 #[verifier::external_body]
@@ -165,27 +165,30 @@ UNIT = {
                       ("X14", r"_marker: PhantomData<R>,", "_marker: PhantomData<&'a R>,", 1)]},
         {"kind": "impl", "file": I, "impl": r"^impl<'a, R: RealNumberInternalTrait> Interpreter<'a, R>$",
          "methods": {"eval_library_definition": {"props": ["C13"],
+             # rule B1: the locals the ghost text (and two rewrites) mention are read from the code
+             "bind": {"EXPORTS": (r"let mut (\w+) = Vec::new\(\);", "final_exports"), "DEFS": (r"let mut (\w+) = HashMap::new\(\);", "definitions"),
+                      "ENV": (r"let (\w+) = Rc::new\(Environment::new\(\)\);", "lib_env")},
              "attrs": "#[verifier::loop_isolation(false)]",
              "sig_rewrites": [("S1", r"\) -> Result<Library<R>>$", ") -> (r: Result<Library<R>>)", 1, "S")],
              "rewrites": [
-                 ("X3s", r"let mut definitions = HashMap::new\(\);", "let mut definitions = std_new_defmap();"),
-                 ("X3s", r"final_exports\.extend\(exports\.iter\(\)\)", "std_extend_refs(&mut final_exports, exports)"),
+                 ("X3s", r"let mut ${DEFS} = HashMap::new\(\);", "let mut ${DEFS} = std_new_defmap();"),
+                 ("X3s", r"${EXPORTS}\.extend\(exports\.iter\(\)\)", "std_extend_refs(&mut ${EXPORTS}, exports)"),
                  ("X15", r"self\.eval_import\(imports, ", "self.eval_import(&imports.data, "),
                  ("X6", r"located_error!\(LogicError::UnboundedSymbol\(from\.clone\(\)\), export\.location\)", "unbound_symbol_at(export.location)"),
                  ("L1", r"for declaration in &library_definition\.1 \{", "for declaration in library_definition.1.iter() {"),
              ],
              "loops": {
-                 1: {"expect_kw": "for", "iter_name": "it1", "invariant": """            invariant fresh_root(*lib_env), defs_view(definitions) == Map::<Seq<char>, Value<R>>::empty(),
+                 1: {"expect_kw": "for", "iter_name": "it1", "invariant": """            invariant fresh_root(*${ENV}), defs_view(${DEFS}) == Map::<Seq<char>, Value<R>>::empty(),
                 it1.seq().len() == library_definition.1@.len(),
                 forall|i: int| 0 <= i < library_definition.1@.len() ==> *it1.seq()[i] == library_definition.1@[i],
-                refs(final_exports@) == all_exports(library_definition.1@, it1.index() as int),""",
+                refs(${EXPORTS}@) == all_exports(library_definition.1@, it1.index() as int),""",
                      "body_start": "            proof { assert(*declaration == library_definition.1@[it1.index() as int]); }"},
-                 2: {"expect_kw": "for", "iter_name": "it2", "invariant": """                        invariant fresh_root(*lib_env), defs_view(definitions) == Map::<Seq<char>, Value<R>>::empty(),
-                            refs(final_exports@) == all_exports(library_definition.1@, it1.index() as int),"""},
-                 3: {"expect_kw": "for", "iter_name": "it3", "invariant": """            invariant fresh_root(*lib_env),
+                 2: {"expect_kw": "for", "iter_name": "it2", "invariant": """                        invariant fresh_root(*${ENV}), defs_view(${DEFS}) == Map::<Seq<char>, Value<R>>::empty(),
+                            refs(${EXPORTS}@) == all_exports(library_definition.1@, it1.index() as int),"""},
+                 3: {"expect_kw": "for", "iter_name": "it3", "invariant": """            invariant fresh_root(*${ENV}),
                 refs(it3.seq()) == all_exports(library_definition.1@, library_definition.1@.len() as int),
-                all_bound(refs(it3.seq()), *lib_env, it3.index() as int),
-                defs_view(definitions) == exported(refs(it3.seq()), *lib_env, it3.index() as int),""",
+                all_bound(refs(it3.seq()), *${ENV}, it3.index() as int),
+                defs_view(${DEFS}) == exported(refs(it3.seq()), *${ENV}, it3.index() as int),""",
                      "body_start": "            proof { assert(*export == refs(it3.seq())[it3.index() as int]); }"},
              },
              "contract": "        ensures library_post(*library_definition, r),"}}},
